@@ -32,6 +32,9 @@ type Region struct {
 	// Transient exceptions answered (one per request) before the region
 	// serves normally again.
 	Transient []Exc
+	// MultiExc are region-level exceptions answered (one per multi-request that carries actions
+	// for this region) in the RegionActionResult; probes and single requests are not affected.
+	MultiExc []Exc
 	// ProbeHold holds every request to this region until released.
 	Hold bool
 	// KillAfterProbe > 0: the next region probes are answered normally and the
